@@ -114,18 +114,42 @@ fn view_group(db: &DB, shared: &Shared, group_idx: usize, group: &Group, by_iter
         };
         shared.views.lock().push((group_idx, shared.stamp()));
         let prefix = format!("g{group_idx}-").into_bytes();
-        if it.seek(&prefix).is_err() {
-            shared.errors.fetch_add(1, Ordering::Relaxed);
-            return None;
-        }
         let mut present: std::collections::BTreeMap<Vec<u8>, String> = Default::default();
-        while it.is_valid() {
-            let (k, v) = it.current().unwrap();
-            if !k.starts_with(&prefix) {
-                break;
+        // every other iterator view walks the group backwards (seek past its end, then prev)
+        let backwards = shared.clock.load(Ordering::Relaxed) % 2 == 0;
+        if backwards {
+            let past_end = format!("g{group_idx}.").into_bytes();
+            if it.seek(&past_end).is_err() {
+                shared.errors.fetch_add(1, Ordering::Relaxed);
+                return None;
             }
-            present.insert(k.clone(), tag_of(v));
-            it.next();
+            if it.is_valid() {
+                it.prev();
+            } else if it.seek_to_last().is_err() {
+                shared.errors.fetch_add(1, Ordering::Relaxed);
+                return None;
+            }
+            while it.is_valid() {
+                let (k, v) = it.current().unwrap();
+                if !k.starts_with(&prefix) {
+                    break;
+                }
+                present.insert(k.clone(), tag_of(v));
+                it.prev();
+            }
+        } else {
+            if it.seek(&prefix).is_err() {
+                shared.errors.fetch_add(1, Ordering::Relaxed);
+                return None;
+            }
+            while it.is_valid() {
+                let (k, v) = it.current().unwrap();
+                if !k.starts_with(&prefix) {
+                    break;
+                }
+                present.insert(k.clone(), tag_of(v));
+                it.next();
+            }
         }
         drop(it);
         for k in &group.keys {
